@@ -317,6 +317,30 @@ theorem C07_panic_value_generic (c : Case) (t : Atom) (o : Out)
   have := C07_code_message c o (.plain t) h he hp
   simpa [ruleCode, ruleDoc, ruleSource, own, errorAtoms, canon, insertSorted] using this
 
+/-- **C07_requests_independent** — in a sequence of requests through one Echo every request
+    gets the response it would get alone, whatever failed before it (errors, recovered panics,
+    crashes).  In the model this holds by construction (`serveAll` is a `map`: the model has no
+    state that outlives a request); the claim about the real code — where a pooled context IS
+    reused — is the correspondence run on sequences. -/
+theorem C07_requests_independent (cs : List Case) (i : Nat) (h : i < cs.length) :
+    (serveAll cs)[i]? = some (serve cs[i]) := by
+  simp [serveAll, h]
+
+theorem C07_sequence_all_answered (cs : List Case)
+    (h : ∀ c ∈ cs, crashes c = false) : ∀ o ∈ serveAll cs, ∃ r, o = .response r := by
+  intro o ho
+  simp only [serveAll, List.mem_map] at ho
+  obtain ⟨c, hc, rfl⟩ := ho
+  rw [serve_eq, h c hc]
+  simp only [Bool.false_eq_true, if_false]
+  cases hr : raisedErr c.raise with
+  | some e => exact ⟨_, rfl⟩
+  | none =>
+    have := h c hc
+    cases hraise : c.raise with
+    | returned e => simp [raisedErr, hraise] at hr
+    | panicked v => simp [crashes, hraise, raisedErr] at this hr; simp [hr] at this
+
 /-! ## non-vacuity -/
 
 /-- one level of Internal only: 400 carrying 409 carrying 418 → the client gets 409 -/
@@ -345,6 +369,13 @@ example : serve ⟨false, false, true, false, false, .nothing, .returned (.httpI
 example : serve ⟨true, false, true, false, false, .nothing,
       .returned (.httpI 400 (.str 1) (.httpI 409 .nil (.plain 9)))⟩
     = .response ⟨[409], [.null], true⟩ := by decide
+/-- three failing requests in a row (panic, returned error, panic): each gets its own response -/
+example : serveAll [⟨false, false, true, false, false, .nothing, .panicked (.str 1)⟩,
+                    ⟨false, false, true, false, false, .nothing, .returned (.http 404 (.str 2))⟩,
+                    ⟨false, false, true, false, false, .nothing, .panicked (.int 3)⟩]
+    = [.response ⟨[500], [.message (.statusText 500) none], true⟩,
+       .response ⟨[404], [.message (.atom 2) none], true⟩,
+       .response ⟨[500], [.message (.statusText 500) none], true⟩] := by decide
 /-- crashes: no Recover, or the abort sentinel -/
 example : serve ⟨false, false, false, false, false, .nothing, .panicked (.str 1)⟩ = .crashed := by decide
 example : serve ⟨false, false, true, false, false, .nothing, .panicked .abort⟩ = .crashed := by decide
